@@ -111,8 +111,11 @@ CONFIG = {
         "literals syntactically; C05_reparse_partial keeps the relation of name resolution to the kernels as a hypothesis, "
         "structure Reader); C05_reprint_fixed takes 'the reader finds the elements where the printer put them' (relaidFile) as "
         "an explicit hypothesis; C05_reparse proves it (parse (print d) = reading, relaid, print reading = print d) for the "
-        "grammar MODEL and the shape SimpleFile (messages, nested messages, enums, fields, values, package, imports); for files "
-        "with options, services, comments, maps the reading is validated by print.file only",
+        "grammar MODEL and the shape SimpleFile (package, imports, messages, nested messages, enums, real oneofs, fields incl. "
+        "map fields, enum values, services with methods; elements without source location); for files with options, custom "
+        "json_name, comments, source locations or extend blocks the reading is validated by print.file only. Which generated "
+        "files are inside the shape is decided per print.file op by Cover.simpleFileB (proved sound: simpleFileB_sound) and "
+        "reported under coverage.reparse_theorem_* (fraction, per origin, reasons for being outside)",
         "float option values (strconv.FormatFloat) and enum value names are opaque texts produced by Go (oracle)",
         "Go harness internal/verifh/printh, overlay hook files, generators (own + j5sgen), check engine",
     ],
@@ -123,3 +126,45 @@ CONFIG = {
         "kernels through overlay hooks; a wrong summary shows as a print.file disagreement, not as a silent pass)",
     ],
 }
+
+
+def extra(ctx):
+    """How much of the generated space the grammar theorem C05_reparse covers: every `file` op of the print.file stream is
+    re-sent to the driver as a `cover` op, which evaluates the decidable predicate Cover.simpleFileB (proved sound for
+    SimpleFile, the hypothesis of C05_reparse) on the arranged summary and names the reasons when it fails. Evidence only:
+    it cannot fail the check."""
+    import glob
+    import subprocess
+    lean = os.path.join(ctx["verif"], "lean") if os.path.abspath(ctx["repo"]) == "/repo" else os.path.join(ctx["work"], "lean")
+    dbin = os.path.join(lean, ".lake", "build", "bin", "drv_print")
+    ops = []
+    for p in sorted(glob.glob(os.path.join(ctx["workdir"], "print.file-*", "ops.txt"))):
+        for line in open(p, errors="replace"):
+            if line.startswith("file "):
+                ops.append("cover " + line[5:].rstrip("\n"))
+    cov = {"reparse_theorem_ops": len(ops)}
+    if not ops or not os.path.exists(dbin):
+        return {"coverage": cov}
+    try:
+        out = subprocess.run([dbin], input=("\n".join(ops) + "\n").encode(), stdout=subprocess.PIPE, timeout=900).stdout.decode(errors="replace").split("\n")
+    except Exception as e:  # noqa: BLE001
+        return {"coverage": cov, "notes": ["C05 cover step failed: %s" % e]}
+    per, why, covered = {}, {}, 0
+    for line in out:
+        w = line.split(" ")
+        if len(w) < 2 or w[1] not in ("0", "1"):
+            continue
+        o = per.setdefault(w[0], [0, 0])
+        o[1] += 1
+        if w[1] == "1":
+            o[0] += 1
+            covered += 1
+        else:
+            for r in (w[2] if len(w) > 2 else "other").split(","):
+                k = w[0] + ":" + r
+                why[k] = why.get(k, 0) + 1
+    cov["reparse_theorem_covered"] = covered
+    cov["reparse_theorem_fraction"] = round(covered / max(1, len(ops)), 4)
+    cov["reparse_theorem_by_origin"] = {k: "%d/%d" % (v[0], v[1]) for k, v in sorted(per.items())}
+    cov["reparse_theorem_outside_reasons"] = dict(sorted(why.items()))
+    return {"coverage": cov}
